@@ -175,6 +175,61 @@ SWEEP_VALS = ['"a"', "5", "0", "'()", "'(1 2)", "(vector 1)", "(box 3)", "2.5", 
               "9223372036854775807", "-9223372036854775808", "18446744073709551616", "(list #f 2)", "#\\a", "(vector 1 2 3)", "(cons 1 2)"]
 
 
+# n-ary arithmetic inside a module function (ADD / MUL / SUB with 3..5 operands compile to dedicated native helpers:
+# extern_c_add_three / extern_c_add_four / ...): inexact addition is not associative, so the ORDER in which a helper
+# combines its operands is observable (seeded change C10-3 summed (a+b)+(c+d))
+NARY_FNS = """
+(define (p3 a b c) (+ a b c))
+(define (p4 a b c d) (+ a b c d))
+(define (p5 a b c d e) (+ a b c d e))
+(define (m3 a b c) (* a b c))
+(define (m4 a b c d) (* a b c d))
+(define (s3 a b c) (- a b c))
+(define (s4 a b c d) (- a b c d))
+(define (q4 a b c d) (+ a (* b c) d))
+"""
+NARY_VALS = ["1e308", "-1e308", "1.0", "1e16", "-1e16", "9007199254740992.0", "1", "-1", "0.1", "0.3", "1e-320", "1/3",
+             "4611686018427387904", "-4611686018427387904", "9223372036854775807", "1e200", "1e-200", "3"]
+
+
+def nary_sweep(ck, n=60):
+    """-> number of differing calls; operand tuples drawn from magnitudes at which +, * are not associative"""
+    import os
+    fns = re.findall(r"\(define \((\w+)((?: \w)*)\)", NARY_FNS)
+    d = os.path.join(ck.work, "mods")
+    os.makedirs(d, exist_ok=True)
+    path = os.path.join(d, "nary.scm")
+    with open(path, "w") as fh:
+        fh.write(NARY_FNS + "(provide " + " ".join(f for f, _ in fns) + ")\n")
+    fixed = ["(p4 1e308 1e308 -1e308 -1e308)", "(p4 9007199254740992.0 1 1 1)", "(p4 1.0 1e16 -1e16 1.0)", "(p3 1e16 -1e16 1.0)",
+             "(p3 1.0 1e16 -1e16)", "(p5 1.0 1e16 -1e16 1.0 1e-320)", "(m4 1e200 1e200 1e-200 1e-200)", "(m3 1e200 1e200 1e-200)",
+             "(s4 1e308 -1e308 1e308 1e308)", "(p4 4611686018427387904 4611686018427387904 -4611686018427387904 -4611686018427387904)",
+             "(p4 0.1 0.3 1e16 -1e16)", "(q4 1e308 1e200 1e200 -1e308)"]
+    calls = list(fixed)
+    while len(calls) < n:
+        f, ps = ck.rng.choice(fns)
+        calls.append("(%s %s)" % (f, " ".join(ck.rng.choice(NARY_VALS) for _ in ps.split())))
+    cases = [['(require "%s")' % path, c, c] for c in calls]
+    on = ck.eval_cases(cases, fresh=True, env={}, batch=20, timeout_per_batch=120)
+    off = ck.eval_cases(cases, fresh=True, env={"STEEL_JIT": "false"}, batch=20, timeout_per_batch=120)
+    top = ck.eval_cases([[NARY_FNS, c] for c in calls], fresh=True, env={"STEEL_JIT": "false"}, batch=20, timeout_per_batch=120)
+
+    def outcome(r):
+        return ["OK " + " ".join(x["ok"]) if "ok" in x else ("ERR" if "err" in x else "CRASH " + json.dumps(x)[:80]) for x in r[1:]]
+    bad = 0
+    for c, a, b, t in zip(calls, on, off, top):
+        ck.cov["evaluations"] += 1
+        oa, ob, ot = outcome(a), outcome(b), outcome(t)
+        if oa != ob or oa[:1] != ot[:1]:
+            bad += 1
+            if bad <= 4:
+                ck.failing_input("n-ary arithmetic in a module function differs between native tier, interpreter and top-level definition on %s" % c,
+                                 {"history": ['(require "<module>")', c, c], "module_file": NARY_FNS, "call": c,
+                                  "jit_on": oa, "jit_off": ob, "top_level_jit_off": ot, "config": {}}, tag="nary")
+    ck.cov["nary_sweep"] = {"calls": len(calls), "functions": len(fns), "differing": bad}
+    return bad
+
+
 def jit_sweep(ck, full=False):
     """Native tier against the interpreter on single operations with operands of every kind (mostly of the WRONG
     type): the functions live in a required module, where primitives compile to opcodes and, with the JIT on, to the
@@ -375,6 +430,7 @@ def run(ck):
     ck.log("module family done")
     # ---- native tier vs interpreter on single operations, operands of every kind
     jit_sweep(ck, full=not jit_proved)
+    nary_sweep(ck, 60 if ck.tier == "quick" else 400)
     for h, m in list(zip(items, model))[:3]:
         ck.sample({"history": [lang.unit_to_steel(u) for u in h][:3], "reference": m[:300]})
     ck.cov["distinct_nontrivial"] = len(nontrivial)
